@@ -91,6 +91,7 @@ def gen_cfg(prop, rng, tier, kind=None):
     if rng.random() < 0.2:
         prof["cancel"] = 0.0   # fault-free configuration (oracles must hold there without relaxation)
     knobs = {"kind": kind, "cfg": cfg, "K": K, "nops": nops, "prios": prios, "lattice": lat_name, "prof": prof,
+             "mixed_items": prop in ("C01", "C02", "C04", "C06", "C05") and rng.random() < 0.25,
              "filters": rng.random() < 0.6, "drain": prop in ("C02", "C04", "C01", "C06") and rng.random() < 0.4}
     return knobs
 
@@ -115,6 +116,17 @@ class GenA:
             return self.drain(h) if self.k.get("drain") else None
         self.count += 1
         op = self.pick(h)
+        if op is not None and op[0] == "put" and self.k.get("mixed_items") and len(op) == 6:
+            # unusual but legal things to store: an empty Pallet, an object that is falsy (len() == 0), a second object carrying
+            # the id of an item put earlier (the library's own tests store several Item("item"))
+            r = self.rng.random()
+            names = [n for n, rec in h.items.items() if rec.state == "inside"]
+            if r < 0.18:
+                op = op + ["pallet"]
+            elif r < 0.36:
+                op = op + ["falsy"]
+            elif r < 0.5 and names and h.kind in ("rprs", "rrs", "rpfs", "bufs", "fls"):
+                op = op + [["dup", self.rng.choice(sorted(names))]]
         self.last = op
         return op
 
